@@ -653,7 +653,21 @@ def rule_r0(chk, pyk):
                     if r_positive_test(gi.test) and any(d is x for b in gi.body for x in ast.walk(b)):
                         # other branch yields 0
                         tg = [U(b.targets[0]) for b in gi.body if isinstance(b, ast.Assign)]
-                        ok = all(isinstance(b, ast.Assign) and isinstance(b.value, ast.Constant) and float(b.value.value) == 0.0 for b in gi.orelse) and bool(gi.orelse)
+                        if gi.orelse:
+                            ok = all(isinstance(b, ast.Assign) and isinstance(b.value, ast.Constant) and float(b.value.value) == 0.0 for b in gi.orelse)
+                        else:
+                            # `x = 0.0` in front of the test plays the part of the else branch: for every name the guarded branch sets, the assignment that reaches
+                            # the test (the last one before it in the enclosing block) is the constant 0
+                            holder = getattr(gi, 'parent', None)
+                            blk = None
+                            for f_ in ('body', 'orelse'):
+                                if holder is not None and gi in (getattr(holder, f_, None) or []):
+                                    blk = getattr(holder, f_)
+                            ok = blk is not None and bool(tg)
+                            for nm_ in tg:
+                                prev = [b for b in (blk or [])[:(blk or []).index(gi)] if isinstance(b, ast.Assign) and U(b.targets[0]) == nm_] if blk else []
+                                if not (prev and isinstance(prev[-1].value, ast.Constant) and isinstance(prev[-1].value.value, (int, float)) and float(prev[-1].value.value) == 0.0):
+                                    ok = False
                         break
                     gi = M.enclosing(gi, (ast.If,))
                 chk.decide(ok, 'guarded-division-by-r', '%s.%s' % (name, m), node=d, file=KER, func='%s.%s' % (name, m),
